@@ -192,14 +192,12 @@ func NewChain(cfg ChainCfg) (*Chain, error) {
 		bonded = bonded.AddRaw(tokens)
 		// keyring + real vote-extension handler for this validator
 		v.KrDir = filepath.Join(tmp, ac.Name)
-		kr, err := keyring.New(sdk.KeyringServiceName(), "test", v.KrDir, nil, cdc)
-		if err != nil {
-			return nil, err
-		}
+		kr := keyring.NewInMemory(cdc)
 		if err := kr.ImportPrivKeyHex(ac.Name, fmt.Sprintf("%x", ac.Priv.Key), "secp256k1"); err != nil {
 			return nil, err
 		}
 		v.Handler = app.NewVoteExtHandler(log.NewNopLogger(), cdc, a.OracleKeeper, a.BridgeKeeper)
+		v.Handler.SetKeyring(kr) // verif hook (app/extend_vote_verif.go): in-memory keyring per validator
 	}
 	for i := 0; i < cfg.NAccts; i++ {
 		ac := newAcct(fmt.Sprintf("a%d", i), 9, i)
@@ -280,14 +278,12 @@ func (c *Chain) NewValKeys(ac *Acct, idx int) (*Val, error) {
 	cons := cmted25519.GenPrivKeyFromSecret(seed)
 	v := &Val{Acct: ac, Cons: cons, ConsAddr: cons.PubKey().Address(), ValAddr: sdk.ValAddress(ac.Addr)}
 	v.KrDir = filepath.Join(c.tmpDir, ac.Name)
-	kr, err := keyring.New(sdk.KeyringServiceName(), "test", v.KrDir, nil, c.App.AppCodec())
-	if err != nil {
-		return nil, err
-	}
+	kr := keyring.NewInMemory(c.App.AppCodec())
 	if err := kr.ImportPrivKeyHex(ac.Name, fmt.Sprintf("%x", ac.Priv.Key), "secp256k1"); err != nil {
 		return nil, err
 	}
 	v.Handler = app.NewVoteExtHandler(log.NewNopLogger(), c.App.AppCodec(), c.App.OracleKeeper, c.App.BridgeKeeper)
+	v.Handler.SetKeyring(kr)
 	c.Vals = append(c.Vals, v)
 	return v, nil
 }
